@@ -2,7 +2,8 @@
     Directives: [ExtrOcamlBasic] only (bool, option, unit, list, prod, sumbool -> OCaml's own;
     andb/orb/negb/fst/snd inlined as it ships).  N/positive/nat stay Coq inductives. *)
 From Coq Require Import Extraction ExtrOcamlBasic.
-From Pi2 Require Import ML.Syntax ML.Subst ML.Machine.
+From Pi2 Require Import ML.Syntax ML.Subst ML.Machine Doc.Machine.
 Extraction Language OCaml.
 Extraction "ml_model.ml" pat_eqb e_fresh s_fresh pat_positive pat_negative well_formed
-  guards_sound guards_pinned apply_esubst apply_ssubst inst exec verify st0.
+  guards_sound guards_pinned apply_esubst apply_ssubst inst exec verify st0
+  doc_wf doc_exec doc_verify.
